@@ -867,7 +867,7 @@ def h_into(I, st, callee, target, args, ctx):
         tgt = ga[1]["ty"]
     elif callee["def"].endswith("From::from") and len(ga) >= 1 and "ty" in ga[0]:
         tgt = ga[0]["ty"]
-    if tgt is not None and (I.f.types[tgt]["k"] == "param" or I.f.types[tgt]["k"] in ("int", "float")):
+    if tgt is not None and (I.f.types[tgt]["k"] == "param" or I.f.types[tgt]["k"] in ("int", "float", "char")):
         ty = tgt
     if ty is not None and I.f.types[ty]["k"] == "param":
         # `T::from(x)` / `x.into()` inside a generic helper: T is known from the call's generic arguments
@@ -892,6 +892,8 @@ def convert_to(I, st, v, ty, ctx):
         return [(st, I.cast(st, "IntToInt", v, ty))]
     if t["k"] == "float" and isinstance(v, VInt):
         return [(st, I.cast(st, "IntToFloat", v, ty))]      # f32::from(u16) is the lossless `as f32`
+    if t["k"] == "char" and isinstance(v, VInt) and v.w == 8 and not v.s:
+        return [(st, VInt(32, False, lin=lin_of(st, v)))]      # char::from(u8): the code point equal to the byte
     txt = t["text"]
     if isinstance(v, VSlice) and ("Vec<u8" in txt):
         return [(st, VSeq(("slice", v.buf, v.start, v.len), vec_cap(I, t)))]
